@@ -19,7 +19,7 @@ def run_suite(monitors, subset=None, timeout=5400):
     env["VF_SUITE_MONITORS"] = monitors
     env.pop("PYTEST_ADDOPTS", None)
     target = subset or ["src/psyclone/tests"]
-    cmd = [PY, "-m", "pytest", "-q", "-p", "no:cacheprovider", "-p",
+    cmd = [PY, "-m", "pytest", "-q", "-rf", "-p", "no:cacheprovider", "-p",
            "vf.pytest_plugin", "--timeout=1800", "-n", str(max(2, NCPU - 2)),
            "-x", "--maxfail=50"] + target
     cmd.remove("-x")
@@ -37,5 +37,7 @@ def run_suite(monitors, subset=None, timeout=5400):
         firings += d["firings"]
     shutil.rmtree(out, ignore_errors=True)
     tail = p.stdout.strip().splitlines()[-1] if p.stdout.strip() else ""
+    failed = sorted(l.split(" ")[1] for l in p.stdout.splitlines()
+                    if l.startswith("FAILED "))
     return {"events": events, "firings": firings, "rc": p.returncode,
-            "summary": tail}
+            "summary": tail, "failed_tests": failed}
